@@ -40,6 +40,11 @@ Definition p_nat : P nat := fun toks =>
   match toks with t :: r => match parse_nat t with Some n => Some (n, r) | None => None end | [] => None end.
 Definition p_N : P N := fun toks =>
   match toks with t :: r => match parse_N t with Some n => Some (n, r) | None => None end | [] => None end.
+Definition p_pos : P positive := fun toks =>
+  match toks with
+  | t :: r => match parse_N t with Some (Npos p) => Some (p, r) | _ => None end
+  | [] => None
+  end.
 Definition p_Z : P Z := fun toks =>
   match toks with t :: r => match parse_Z t with Some n => Some (n, r) | None => None end | [] => None end.
 
@@ -49,7 +54,7 @@ Definition p_pyval : P pyval := fun toks =>
       if str_eqb t t_0 then Some (PNone, r)
       else if str_eqb t t_S then match r with s :: r' => Some (PStr s, r') | [] => None end
       else if str_eqb t t_N then
-        match p_Z r with Some (n, r1) => match p_N r1 with Some (d, r2) => Some (PNum n d, r2) | None => None end | None => None end
+        match p_Z r with Some (n, r1) => match p_pos r1 with Some (d, r2) => Some (PNum n d, r2) | None => None end | None => None end
       else if str_eqb t t_D then
         match p_Z r with Some (o, r1) => Some (PDate o, r1) | None => None end
       else if str_eqb t t_T then
@@ -63,7 +68,7 @@ Definition p_val : P val := fun toks =>
   | t :: r =>
       if str_eqb t t_0 then Some (None, r)
       else if str_eqb t t_N then
-        match p_Z r with Some (n, r1) => match p_N r1 with Some (d, r2) => Some (Some (n, d), r2) | None => None end | None => None end
+        match p_Z r with Some (n, r1) => match p_pos r1 with Some (d, r2) => Some (Some (n, d), r2) | None => None end | None => None end
       else None
   | [] => None
   end.
@@ -202,7 +207,7 @@ Definition sp (l : list str) : str := sep 32 l.
 Definition show_cval (v : cval) : str :=
   match v with
   | CStr s => match s with [] => t_S | _ => sp [t_S; show_str s] end
-  | CNum n d => sp [t_N; show_Z n; show_N d]
+  | CNum n d => sp [t_N; show_Z n; show_N (Npos d)]
   | COpaque => [79]
   end.
 
@@ -210,7 +215,7 @@ Definition show_cell (c : cell) : str :=
   match c with
   | Empty => [69]
   | Str s => match s with [] => t_S | _ => sp [t_S; show_str s] end
-  | Num n d => sp [t_N; show_Z n; show_N d]
+  | Num n d => sp [t_N; show_Z n; show_N (Npos d)]
   | Formula s => match s with [] => [70] | _ => sp [[70]; show_str s] end
   | Opaque => [79]
   end.
